@@ -108,6 +108,14 @@ def task(p, cse, tier, seed):
             part.violation(key_base + "/purity", f"process_model modifies its inputs or is not repeatable: {got['inputs_unmodified']=}, {got['repeat_identical']=}", path)
         conc.append((e, got))
 
+    env2 = pyh.second_env(env, keep=p.calibration)
+    Psym2, Pvars2 = pyh.sym_cov(p.state, prefix="P2")
+    ppairs = [(Pvars[k_], Pvars2[k_]) for k_ in Pvars]
+
+    def to2(t):
+        t = pyh.subst_env(t, env, env2)
+        return z3.substitute(t, *ppairs) if ppairs else t
+
     def harness():
         with installed(), quiet():
             ekf = pyh.build_ekf_sym(p, env, pn, sn, cse=cse)
@@ -118,14 +126,19 @@ def task(p, cse, tier, seed):
             r1 = ekf.process_model(SymReal(env[p.dt]), st, cov, ct)
             after = (st.data.copy(), cov.data.copy(), ct.data.copy())
             r2 = ekf.process_model(SymReal(env[p.dt]), st, cov, ct)
-        return r1, r2, snap, after
+            # history dimension: a later call on the same filter object with independent inputs
+            st3 = ekf.State(**pyh.sym_state_kwargs(p.state, env2))
+            ct3 = ekf.Control(**pyh.sym_state_kwargs(p.control, env2))
+            cov3 = ekf.Covariance.from_data(Psym2.copy())
+            r3 = ekf.process_model(SymReal(env2[p.dt]), st3, cov3, ct3)
+        return r1, r2, snap, after, r3
 
     leaves = explore(harness, assumes=assumes, config={"gate": "assume"})
     part.leaves(leaves)
     if len(leaves) != 1 or leaves[0].status != "ok":
         part.harness_error(f"{key_base}: expected one ok path, got {leaves}")
         return part.d
-    r1, r2, snap, after = leaves[0].value
+    r1, r2, snap, after, r3 = leaves[0].value
     reach(part, key_base + "/assumptions-sat", assumes + pyh.diag_dominant(p.state))
     part.extra("gate_assumptions", len(leaves[0].gate_assumed))
 
@@ -159,6 +172,64 @@ def task(p, cse, tier, seed):
                 return {"impl": float(got["cov"][i, j]), "spec": float(Pn[i, j])}
 
             prove_equal(part, PID, f"{key_base}/cov[{ss[i]},{ss[j]}]==GPG'+VMV'", lift(r1.covariance.data[i, j]), specP[i][j], assumes, tmo, replay=replay, key=f"{key_base}/cov[{ss[i]},{ss[j]}]", info={"program": p.id, "cse": cse, "what": "cov", "i": i, "j": j}, all_vars=allv, witness_constraints=wit, seeded_envs=seeded_envs)
+
+    # second call on the same filter object with fresh inputs == specification at the new inputs
+    assumes2 = assumes + [to2(a) for a in assumes]
+
+    def float_second(e):
+        e1 = {k_: v for k_, v in e.items() if not k_.endswith("__2") and not k_.startswith("P2_")}
+        e2 = dict(e1)
+        for nm in env:
+            if nm not in p.calibration:
+                e2[nm] = e.get(env2[nm].decl().name(), 0.25)
+        for (a, b) in Pvars:
+            e2[f"P_{a}_{b}"] = e.get(f"P2_{a}_{b}", 1.0 if a == b else 0.0)
+        for (a, b) in Pvars:
+            e1.setdefault(f"P_{a}_{b}", 1.0 if a == b else 0.0)
+        for nm in env:
+            e1.setdefault(nm, 0.25)
+        return e1, e2
+
+    def float_predict_sequence(e):
+        e1, e2 = float_second(e)
+
+        def go():
+            with quiet():
+                pnv, snv = pyh.noise_vals_from_env(p, e1)
+                ekf = pyh.build_ekf_float(p, e1, cse=cse, pn=pnv, sn=snv)
+                out = None
+                for ee in (e1, e2):
+                    st_ = ekf.State(**{s_: float(ee[s_]) for s_ in p.state})
+                    ct_ = ekf.Control(**{c_: float(ee[c_]) for c_ in p.control})
+                    cov_ = ekf.Covariance.from_data(pyh.float_cov(p.state, ee))
+                    r_ = ekf.process_model(float(ee[p.dt]), st_, cov_, ct_)
+                    out = {"state": r_.state.data.reshape(-1).copy(), "cov": r_.covariance.data.copy()}
+                return out, e2
+
+        return pyh.gate_guard(go)
+
+    allv2 = dict(allv)
+    allv2.update({v.decl().name(): v for v in env2.values()})
+    for k_, v in Pvars2.items():
+        allv2[f"P2_{k_[0]}_{k_[1]}"] = v
+    wit2 = wit + pyh.diag_dominant(p.state, prefix="P2")
+    for i, s in enumerate(ss):
+
+        def replay(e, i=i):
+            got, e2 = float_predict_sequence(e)
+            f_, _ = spec_float(p, e2)
+            return {"impl": float(got["state"][i]), "spec": f_[i]}
+
+        prove_equal(part, PID, f"{key_base}/second call state[{s}]==f at the new inputs", lift(r3.state.data[i, 0]), to2(specf[s]), assumes2, tmo, replay=replay, key=f"{key_base}/second-call/state[{s}]", info={"program": p.id, "cse": cse, "what": "second-call"}, all_vars=allv2, witness_constraints=wit2)
+    for i in range(n):
+        for j in range(i, n):
+
+            def replay(e, i=i, j=j):
+                got, e2 = float_predict_sequence(e)
+                _, Pn = spec_float(p, e2)
+                return {"impl": float(got["cov"][i, j]), "spec": float(Pn[i, j])}
+
+            prove_equal(part, PID, f"{key_base}/second call cov[{ss[i]},{ss[j]}]==GPG'+VMV' at the new inputs", lift(r3.covariance.data[i, j]), to2(specP[i][j]), assumes2, tmo, replay=replay, key=f"{key_base}/second-call/cov[{ss[i]},{ss[j]}]", info={"program": p.id, "cse": cse, "what": "second-call"}, all_vars=allv2, witness_constraints=wit2)
 
     # inputs unmodified: every element of the inputs is the same term before and after the call
     same = all(lift(a).eq(lift(b)) for A, B in zip(snap, after) for a, b in zip(A.reshape(-1), B.reshape(-1)))
@@ -215,6 +286,9 @@ def replay(path):
     ps = {p.id: p for p in programs_for("thorough", int(r.get("seed", 0)))}
     p = ps[info["program"]]
     e = r["inputs"]
+    if info.get("what") == "second-call":
+        print("second-call obligation: re-run bin/check C04 (the replay needs the two-call sequence); inputs:", e)
+        return 1
     try:
         got = float_predict(p, info["cse"], e, repeat=True)
     except pyh.GateRejected as ex:
